@@ -7,7 +7,9 @@
    6. uniqueness of names in situ (create_entry_refines)
    7. C03 corollaries (slots_wf), rename at the slot level, the finite-map view (dir_map)
    8. example directories
-   9. the library's own lookup against the decoder (remove_entry_refines, rename_in_dir_refines, ..._insane_refuted) *)
+   9. the library's own lookup against the decoder (remove_entry_refines, has_exact_name_spec, rename_rewrite_refines,
+      rename_in_dir_refines - fresh name / own name in the stored spelling / own name in another spelling -,
+      ..._insane_refuted) *)
 From Coq Require Import NArith ZArith Lia List Bool Arith.
 From FatVerif Require Import Model.Base Model.Str Model.Slot Model.Time Model.Name Model.ShortName Model.DirSlots
   Spec.Abs Proofs.NameProofs Proofs.ShortNameProofs.
@@ -1304,13 +1306,16 @@ Theorem rename_refines_map k free fat32 ss n se es ls e p q ss' :
   write_entry k free (mark_deleted ss (e_first_slot e) (e_sfn_slot e + 1)) n se = (Ok (p, q), ss') ->
   exists es' ne, dir_scan ss' 0 [] fat32 = (es', ls, []) /\ e_sfn ne = se_name se /\
     e_lfn ne = (if is_dot_name n then [] else utf16_encode n) /\
-    forall key, dir_map es' key =
-      if list_eqb (se_name se) key then Some ne else if list_eqb (e_sfn e) key then None else dir_map es key.
+    (forall key, dir_map es' key =
+       if list_eqb (se_name se) key then Some ne else if list_eqb (e_sfn e) key then None else dir_map es key) /\
+    e_lfn_ok ne = true /\ e_attr ne = se_attrs se /\ e_size ne = se_size se /\
+    e_cluster ne = (if fat32 then se_first_cluster_hi se * 65536 else 0) + se_first_cluster_lo se.
 Proof.
   intros H0 Hb Hin ND Hl Hnew W.
   destruct (rename_slots_refines k free fat32 ss n se es ls e p q ss' H0 Hb Hin Hl W)
-    as [a [b [c [d [ne [E1 [E2 [E3 [E4 [_ [E6 _]]]]]]]]]]].
+    as [a [b [c [d [ne [E1 [E2 [E3 [E4 [E5 [E6 [E7 [E8 [E9 _]]]]]]]]]]]]]].
   exists (c ++ ne :: d), ne. split; [exact E3|]. split; [exact E6|]. split; [exact E4|].
+  split; [|repeat split; assumption].
   intros key. rewrite E1 in *.
   assert (~ In (e_sfn ne) (map e_sfn (c ++ d))) as Hfresh.
   { rewrite <- E2, E6. intros C. apply in_map_iff in C. destruct C as [x [X1 X2]].
@@ -1391,7 +1396,8 @@ Lemma listed_is_decoded fat32 oem ss es ls ev :
     slot_decode (nth (N.to_nat (e_sfn_slot e)) ss []) = SFile se /\ sfn_is_volume se = false /\
     nth 0 (se_name se) 0 <> 0 /\ nth 0 (se_name se) 0 <> 229 /\
     e_attr e mod 64 = se_attrs se /\ e_size e = se_size se /\
-    e_cluster e = (if fat32 then se_first_cluster_hi se * 65536 else 0) + se_first_cluster_lo se.
+    e_cluster e = (if fat32 then se_first_cluster_hi se * 65536 else 0) + se_first_cluster_lo se /\
+    e_sfn e = se_name se.
 Proof.
   intros H0 Hsane (pre & bs & post & se & Hss & Hpre & Hdec & Hne & Hent & Hev).
   assert (Forall nonend pre) as Hpre'.
@@ -1425,7 +1431,7 @@ Proof.
   assert (nth 0 (se_name se) 0 = byte_at bs 0) as N0 by (rewrite <- (first_byte_decode bs), Hdec; reflexivity).
   rewrite N0. split; [exact B0|]. split; [exact Hd|].
   unfold slot_decode in Hdec. destruct (N.land (attrs_truncate (byte_at bs 11)) ATTR_LFN =? ATTR_LFN); [discriminate|].
-  injection Hdec as <-. cbn [se_attrs se_size se_first_cluster_hi se_first_cluster_lo]. repeat split.
+  injection Hdec as <-. cbn [se_name se_attrs se_size se_first_cluster_hi se_first_cluster_lo]. repeat split.
 Qed.
 
 Lemma find_entry_listed upper oem ss name kind ev :
@@ -1476,51 +1482,60 @@ Proof.
   - apply LfnProofs.u32_at_lt. exact Hb.
 Qed.
 
-(* Dir::rename within one directory (rename_internal with dst_dir = self), on success: either nothing changed (the
-   destination names the source entry itself: D22), or the decoding loses exactly the source entry and gains exactly one
-   entry with the new long name, a fresh legal alias, and the source's attributes, size and first cluster *)
-Theorem rename_in_dir_refines upper oem k free fat32 ss src dst es ls ss' :
-  dir_scan ss 0 [] fat32 = (es, ls, []) -> len_N ss < 134217728 -> Forall attrs_sane ss -> Forall bytes_ok ss ->
-  NoDup (map e_sfn es) ->
-  rename_in_dir upper oem k free ss src dst = (Ok tt, ss') ->
-  ss' = ss \/
-  exists e ne es',
-    In e es /\ dir_scan ss' 0 [] fat32 = (es', ls, []) /\
-    e_lfn ne = (if is_dot_name dst then [] else utf16_encode dst) /\ e_lfn_ok ne = true /\
-    sfn_legal_b (e_sfn ne) = true /\ ~ In (e_sfn ne) (map e_sfn es) /\
+(* in a directory of 32-byte slots every decoded entry has its 11 short-name bytes (the premise of the rewrite case of
+   rename_in_dir_refines) *)
+Lemma decoded_sfn_length fat32 ss es ls iss e :
+  dir_scan ss 0 [] fat32 = (es, ls, iss) -> Forall (fun s => length s = 32%nat) ss -> In e es -> length (e_sfn e) = 11%nat.
+Proof.
+  intros H0 H32 Hin.
+  destruct (scan_In_split fat32 ss 0 [] es ls iss e H0 Hin) as [pre0 [lf [s [post [E1 [_ [_ [_ E5]]]]]]]].
+  assert (length s = 32%nat) as Ls.
+  { rewrite Forall_forall in H32. apply H32. rewrite E1. apply in_or_app. right. apply in_or_app. right. left. reflexivity. }
+  assert (e_sfn e = firstn 11 s) as -> by (destruct E5 as [[_ ->]|[_ [_ ->]]]; reflexivity).
+  rewrite firstn_length, Ls. reflexivity.
+Qed.
+
+(* DirEntry::has_exact_name, spelled out *)
+Lemma has_exact_name_spec ev name :
+  has_exact_name ev name = true <->
+  (Lfn.ev_lfn ev <> [] /\ Lfn.ev_lfn ev = utf16_encode name) \/
+  (Lfn.ev_lfn ev = [] /\ Lfn.ev_short ev = utf8_encode name).
+Proof.
+  unfold has_exact_name. destruct (Lfn.ev_lfn ev) as [|u us]; rewrite str_eqb_spec; split.
+  - intros H. right. split; [reflexivity|exact H].
+  - intros [[C _]|[_ H]]; [congruence|exact H].
+  - intros H. left. split; [discriminate|exact H].
+  - intros [[_ H]|[C _]]; [exact H|discriminate].
+Qed.
+
+(* the tail of rename_internal (deletion loop over the slots of the listed source entry, then write_entry of the renamed
+   short entry) for a source entry [ev] that is the decoded entry [e] with short slot [se], and a short name [a] that no
+   OTHER entry of the directory carries ([a] may be the source's own short name) *)
+Lemma rename_rewrite_refines k free fat32 ss ev dst a es ls ss' e se :
+  dir_scan ss 0 [] fat32 = (es, ls, []) -> len_N ss < 134217728 -> Forall bytes_ok ss -> NoDup (map e_sfn es) ->
+  In e es -> Lfn.ev_begin ev / 32 = e_first_slot e -> Lfn.ev_end ev / 32 = e_sfn_slot e + 1 ->
+  slot_decode (nth (N.to_nat (e_sfn_slot e)) ss []) = SFile se -> sfn_is_volume se = false ->
+  e_attr e mod 64 = se_attrs se -> e_size e = se_size se ->
+  e_cluster e = (if fat32 then se_first_cluster_hi se * 65536 else 0) + se_first_cluster_lo se ->
+  length a = 11%nat -> nth 0 a 0 <> 0 -> nth 0 a 0 <> 229 ->
+  (forall x, In x es -> x <> e -> e_sfn x <> a) ->
+  rename_rewrite k free ss ev dst a = (Ok tt, ss') ->
+  exists ne es',
+    dir_scan ss' 0 [] fat32 = (es', ls, []) /\
+    e_lfn ne = (if is_dot_name dst then [] else utf16_encode dst) /\ e_lfn_ok ne = true /\ e_sfn ne = a /\
     e_attr ne = e_attr e mod 64 /\ e_size ne = e_size e /\ e_cluster ne = e_cluster e /\
     forall key, dir_map es' key =
-      if list_eqb (e_sfn ne) key then Some ne else if list_eqb (e_sfn e) key then None else dir_map es key.
+      if list_eqb a key then Some ne else if list_eqb (e_sfn e) key then None else dir_map es key.
 Proof.
-  intros H0 Hb Hs Hby ND H. unfold rename_in_dir, lift in H.
-  destruct (find_entry upper oem ss src None) as [ev| | |] eqn:F; try discriminate.
-  destruct (is_special ev); [discriminate|].
-  destruct (check_for_existence upper oem ss dst None) as [[dv|a]| | |] eqn:C; try discriminate.
-  { left. destruct (Lfn.ev_end ev =? Lfn.ev_end dv); [|discriminate]. injection H as <-. reflexivity. }
-  right.
-  destruct (write_entry k free (delete_entry ss ev) dst (renamed (entry_data ss ev) a)) as [w ss2] eqn:W.
-  destruct w as [[p q]| | |]; try discriminate. cbn [bind] in H. injection H as <-.
-  (* the alias *)
-  unfold check_for_existence in C.
-  destruct (validate_long_name dst) as [[]| | |] eqn:V; try discriminate. cbn [bind] in C.
-  destruct (dir_entries oem ss) as [l| | |] eqn:DE; try discriminate. cbn [bind] in C.
-  destruct (find (matches upper oem dst) l) as [xv|] eqn:Fd.
-  { destruct (kind_check xv None); discriminate. }
-  destruct (alias_for dst (map Lfn.ev_raw_name l) (S (length l / 9))) as [a'| | |] eqn:AF; try discriminate.
-  cbn [bind] in C. injection C as ->.
-  pose proof (sfn_legal _ _ _ _ AF) as HL. pose proof (sfn_unique _ _ _ _ AF) as HU.
-  rewrite (dir_entries_sfns fat32 oem ss l es ls [] DE H0) in HU.
-  destruct (sfn_legal_first a HL) as [L1 [L2 L3]].
-  (* the source entry *)
-  destruct (find_entry_listed _ _ _ _ _ _ F) as [HLi _].
-  destruct (listed_is_decoded fat32 oem ss es ls ev H0 Hs HLi)
-    as [e [se [Hin [Hn [Hbg [Hen [Hdec [Hvol [_ [_ [Hat [Hsz Hcl]]]]]]]]]]]].
+  intros H0 Hb Hby ND Hin Hbg Hen Hdec Hvol Hat Hsz Hcl L1 L2 L3 Hnew H. unfold rename_rewrite in H.
   assert (entry_data ss ev = se) as Ed.
   { unfold entry_data, DIR_ENTRY_SIZE. rewrite Hen. replace (e_sfn_slot e + 1 - 1) with (e_sfn_slot e) by lia.
     rewrite Hdec. reflexivity. }
   assert (delete_entry ss ev = mark_deleted ss (e_first_slot e) (e_sfn_slot e + 1)) as Edel
     by (unfold delete_entry, DIR_ENTRY_SIZE; rewrite Hbg, Hen; reflexivity).
-  rewrite Ed, Edel in W.
+  rewrite Ed, Edel in H.
+  destruct (write_entry k free (mark_deleted ss (e_first_slot e) (e_sfn_slot e + 1)) dst (renamed se a)) as [w ss2] eqn:W.
+  destruct w as [[p q]| | |]; try discriminate. cbn [bind] in H. injection H as <-.
   assert (bytes_ok (nth (N.to_nat (e_sfn_slot e)) ss [])) as Hbs.
   { destruct (nth_in_or_default (N.to_nat (e_sfn_slot e)) ss []) as [I|D].
     - rewrite Forall_forall in Hby. apply Hby. exact I.
@@ -1528,25 +1543,90 @@ Proof.
   assert (sfn_live (renamed se a)) as Hlive.
   { constructor; [apply (decoded_fields_ok _ _ Hbs Hdec a L1)| | |]; unfold renamed; cbn [se_name se_attrs]; try assumption.
     unfold sfn_is_volume, ATTR_VOLUME_ID in Hvol. apply negb_false_iff in Hvol. apply N.eqb_eq in Hvol. exact Hvol. }
-  assert (forall x, In x es -> x <> e -> e_sfn x <> se_name (renamed se a)) as Hnew.
-  { intros x Hx _ C. apply HU. cbn [renamed se_name] in C. rewrite <- C. apply in_map. exact Hx. }
-  destruct (rename_slots_refines k free fat32 ss dst (renamed se a) es ls e p q ss2 H0 Hb Hin Hlive W)
-    as [a1 [b1 [c1 [d1 [ne [E1 [E2 [E3 [E4 [E5 [E6 [E7 [E8 [E9 _]]]]]]]]]]]]]].
   destruct (rename_refines_map k free fat32 ss dst (renamed se a) es ls e p q ss2 H0 Hb Hin ND Hlive Hnew W)
-    as [es' [ne' [G1 [G2 [G3 G4]]]]].
-  assert (es' = c1 ++ ne :: d1) as -> by congruence.
-  assert (ne' = ne) as ->.
-  { specialize (G4 (e_sfn ne)). cbn [renamed se_name] in *. rewrite <- E6 in G4 at 1.
-    assert (list_eqb (e_sfn ne) (e_sfn ne) = true) as R by (apply list_eqb_eq; reflexivity). rewrite R in G4.
-    rewrite dir_map_insert in G4.
-    - rewrite R in G4. congruence.
-    - rewrite <- E2, E6. intros C. apply HU. rewrite E1. rewrite !map_app in *. cbn [map].
-      apply in_app_or in C. apply in_or_app. destruct C; [left|right; right]; assumption. }
-  exists e, ne, (c1 ++ ne :: d1). cbn [renamed se_name se_attrs se_size se_first_cluster_hi se_first_cluster_lo] in *.
-  split; [exact Hin|]. split; [exact E3|]. split; [exact E4|]. split; [exact E5|].
-  split; [rewrite E6; exact HL|]. split; [rewrite E6; exact HU|].
-  split; [rewrite E7; symmetry; exact Hat|]. split; [rewrite E8; symmetry; exact Hsz|]. split; [rewrite E9; symmetry; exact Hcl|].
-  intros key. rewrite G4, E6. reflexivity.
+    as [es' [ne [G1 [G2 [G3 [G4 [G5 [G6 [G7 G8]]]]]]]]].
+  cbn [renamed se_name se_attrs se_size se_first_cluster_hi se_first_cluster_lo] in *.
+  exists ne, es'. split; [exact G1|]. split; [exact G3|]. split; [exact G5|]. split; [exact G2|].
+  split; [rewrite G6; symmetry; exact Hat|]. split; [rewrite G7; symmetry; exact Hsz|].
+  split; [rewrite G8; symmetry; exact Hcl|]. exact G4.
+Qed.
+
+(* Dir::rename within one directory (rename_internal with dst_dir = self), on success.  The source [ev] found by the
+   library's own matching is ONE decoded entry [e], and exactly one of three things happened:
+   - the destination name is not in use: the decoding loses exactly e and gains exactly one entry with the new long name,
+     a fresh legal alias [a], and the source's attributes, size and first cluster;
+   - the destination name resolves to the source entry itself and the entry is stored under exactly this spelling
+     (has_exact_name): nothing changed;
+   - it resolves to the source entry itself under ANOTHER spelling (other case of the long name, or the entry's alias):
+     the entry is rewritten - the map key (raw short name) of e now holds an entry with the new long name, the SAME
+     short name and the source's attributes, size and first cluster; every other key is as before.  (Before 46d26a5
+     this case was a no-op: D22.)  [length (e_sfn e) = 11]: the source's short slot has its 11 name bytes, true of every
+     32-byte slot. *)
+Theorem rename_in_dir_refines upper oem k free fat32 ss src dst es ls ss' :
+  dir_scan ss 0 [] fat32 = (es, ls, []) -> len_N ss < 134217728 -> Forall attrs_sane ss -> Forall bytes_ok ss ->
+  NoDup (map e_sfn es) ->
+  rename_in_dir upper oem k free ss src dst = (Ok tt, ss') ->
+  exists ev e,
+    find_entry upper oem ss src None = Ok ev /\ In e es /\ Lfn.ev_raw_name ev = e_sfn e /\
+    ((exists a ne es',
+        check_for_existence upper oem ss dst None = Ok (Fresh a) /\
+        dir_scan ss' 0 [] fat32 = (es', ls, []) /\
+        e_lfn ne = (if is_dot_name dst then [] else utf16_encode dst) /\ e_lfn_ok ne = true /\
+        e_sfn ne = a /\ sfn_legal_b a = true /\ ~ In a (map e_sfn es) /\
+        e_attr ne = e_attr e mod 64 /\ e_size ne = e_size e /\ e_cluster ne = e_cluster e /\
+        forall key, dir_map es' key =
+          if list_eqb a key then Some ne else if list_eqb (e_sfn e) key then None else dir_map es key) \/
+     (exists dv,
+        check_for_existence upper oem ss dst None = Ok (Exists dv) /\ Lfn.ev_end dv = Lfn.ev_end ev /\
+        (has_exact_name ev dst = true -> ss' = ss) /\
+        (has_exact_name ev dst = false -> length (e_sfn e) = 11%nat ->
+         exists ne es',
+           dir_scan ss' 0 [] fat32 = (es', ls, []) /\
+           e_lfn ne = (if is_dot_name dst then [] else utf16_encode dst) /\ e_lfn_ok ne = true /\
+           e_sfn ne = e_sfn e /\
+           e_attr ne = e_attr e mod 64 /\ e_size ne = e_size e /\ e_cluster ne = e_cluster e /\
+           forall key, dir_map es' key = if list_eqb (e_sfn e) key then Some ne else dir_map es key))).
+Proof.
+  intros H0 Hb Hs Hby ND H. unfold rename_in_dir, lift in H.
+  destruct (find_entry upper oem ss src None) as [ev| | |] eqn:F; try discriminate.
+  destruct (is_special ev); [discriminate|].
+  (* the source entry *)
+  destruct (find_entry_listed _ _ _ _ _ _ F) as [HLi _].
+  destruct (listed_is_decoded fat32 oem ss es ls ev H0 Hs HLi)
+    as [e [se [Hin [Hn [Hbg [Hen [Hdec [Hvol [Hf0 [Hf5 [Hat [Hsz [Hcl Hnm]]]]]]]]]]]]].
+  exists ev, e. split; [reflexivity|]. split; [exact Hin|]. split; [exact Hn|].
+  destruct (check_for_existence upper oem ss dst None) as [[dv|a]| | |] eqn:C; try discriminate.
+  - (* the destination exists *)
+    right. exists dv. destruct (Lfn.ev_end ev =? Lfn.ev_end dv) eqn:EE; cbn [negb] in H; [|discriminate].
+    apply N.eqb_eq in EE. split; [reflexivity|]. split; [symmetry; exact EE|].
+    destruct (has_exact_name ev dst) eqn:HX.
+    + injection H as <-. split; [reflexivity|discriminate].
+    + split; [discriminate|]. intros _ L1. rewrite Hn in H.
+      assert (forall x, In x es -> x <> e -> e_sfn x <> e_sfn e) as Hnew.
+      { intros x Hx Hne C'. destruct (in_split _ _ Hin) as [l1 [l2 ->]].
+        rewrite map_app in ND. cbn [map] in ND. apply NoDup_remove_2 in ND. apply ND. rewrite <- C', <- map_app.
+        apply in_map. apply in_app_or in Hx. apply in_or_app. destruct Hx as [Hx|[Hx|Hx]]; [left; exact Hx|congruence|right; exact Hx]. }
+      destruct (rename_rewrite_refines k free fat32 ss ev dst (e_sfn e) es ls ss' e se H0 Hb Hby ND Hin Hbg Hen Hdec Hvol
+                  Hat Hsz Hcl) as [ne [es' [G1 [G2 [G3 [G4 [G5 [G6 [G7 G8]]]]]]]]]; try (rewrite Hnm; assumption); try assumption.
+      exists ne, es'. repeat (split; [assumption|]).
+      intros key. rewrite G8. destruct (list_eqb (e_sfn e) key); reflexivity.
+  - (* a fresh name: the alias *)
+    left.
+    pose proof C as C0. unfold check_for_existence in C.
+    destruct (validate_long_name dst) as [[]| | |] eqn:V; try discriminate. cbn [bind] in C.
+    destruct (dir_entries oem ss) as [l| | |] eqn:DE; try discriminate. cbn [bind] in C.
+    destruct (find (matches upper oem dst) l) as [xv|] eqn:Fd.
+    { destruct (kind_check xv None); discriminate. }
+    destruct (alias_for dst (map Lfn.ev_raw_name l) (S (length l / 9))) as [a'| | |] eqn:AF; try discriminate.
+    cbn [bind] in C. injection C as ->.
+    pose proof (sfn_legal _ _ _ _ AF) as HL. pose proof (sfn_unique _ _ _ _ AF) as HU.
+    rewrite (dir_entries_sfns fat32 oem ss l es ls [] DE H0) in HU.
+    destruct (sfn_legal_first a HL) as [L1 [L2 L3]].
+    assert (forall x, In x es -> x <> e -> e_sfn x <> a) as Hnew.
+    { intros x Hx _ C'. apply HU. rewrite <- C'. apply in_map. exact Hx. }
+    destruct (rename_rewrite_refines k free fat32 ss ev dst a es ls ss' e se H0 Hb Hby ND Hin Hbg Hen Hdec Hvol
+                Hat Hsz Hcl L1 L2 L3 Hnew H) as [ne [es' [G1 [G2 [G3 [G4 [G5 [G6 [G7 G8]]]]]]]]].
+    exists a, ne, es'. split; [reflexivity|]. repeat (split; [assumption|]). exact G8.
 Qed.
 
 (* D20 at this layer: "a failed rename leaves the directory unchanged" is FALSE for the code as it is - the source slots
